@@ -38,15 +38,21 @@ func (h *half) write(p []byte) (int, error) {
 	if h.werr != nil {
 		return 0, h.werr
 	}
-	if h.wclosed || h.rclosed {
-		return 0, io.ErrClosedPipe
+	if h.wclosed {
+		return 0, net.ErrClosed // closed by the writer itself, as a real connection reports it
+	}
+	if h.rclosed {
+		return 0, io.ErrClosedPipe // the peer is gone
 	}
 	for h.window > 0 && len(h.buf) >= h.window {
 		h.cond.Wait()
 		if h.werr != nil {
 			return 0, h.werr
 		}
-		if h.wclosed || h.rclosed {
+		if h.wclosed {
+			return 0, net.ErrClosed
+		}
+		if h.rclosed {
 			return 0, io.ErrClosedPipe
 		}
 	}
